@@ -4565,6 +4565,34 @@ where
         self.as_triangulation().vertex_coords(v)
     }
 
+    /// Maps a vertex into the fundamental domain of the configured global topology before it is
+    /// inserted (toroidal domains wrap coordinates; Euclidean space leaves them untouched), so
+    /// that later insertions are treated exactly like the points of the batch construction.
+    fn canonicalize_for_global_topology(
+        &self,
+        vertex: Vertex<K::Scalar, U, D>,
+    ) -> Result<Vertex<K::Scalar, U, D>, InsertionError> {
+        use crate::geometry::traits::coordinate::Coordinate;
+        use crate::topology::traits::global_topology_model::GlobalTopologyModel;
+
+        if matches!(self.tri.global_topology, GlobalTopology::Euclidean) {
+            return Ok(vertex);
+        }
+        let mut coords = *vertex.point().coords();
+        self.tri
+            .global_topology
+            .model()
+            .canonicalize_point_in_place(&mut coords)
+            .map_err(|e| InsertionError::CavityFilling {
+                message: format!("Failed to canonicalize vertex for the global topology: {e}"),
+            })?;
+        Ok(Vertex::new_with_uuid(
+            crate::geometry::point::Point::new(coords),
+            vertex.uuid(),
+            vertex.data,
+        ))
+    }
+
     fn ensure_spatial_index_seeded(&mut self) {
         if self.spatial_index.is_some() {
             return;
@@ -4670,6 +4698,7 @@ where
     where
         K::Scalar: ScalarSummable,
     {
+        let vertex = self.canonicalize_for_global_topology(vertex)?;
         self.ensure_spatial_index_seeded();
 
         // Fully delegate to Triangulation layer
@@ -4784,6 +4813,7 @@ where
     where
         K::Scalar: ScalarSummable,
     {
+        let vertex = self.canonicalize_for_global_topology(vertex)?;
         self.ensure_spatial_index_seeded();
 
         // Transactional guard: post-steps (flip repair and/or global Delaunay checks) can fail.
